@@ -1,5 +1,6 @@
 """C20 — HTTP/2 and HTTP/1.1 clients get the same answer."""
 import os
+import resource
 
 import kv
 from kv import Case, xn, xb, xl, xlist, xopt, xbool, xz
@@ -279,6 +280,14 @@ LEVEL_NOTE = ("Trusted: Coq kernel; extraction (sample re-checked in-kernel); th
 TECHNIQUE = ("Coq proof (equality up to an explicit header filter; inductive invariant over all schedules, reusing C03's simulation) + "
              "differential correspondence over real TLS connections with both protocols")
 
+# The extracted model recurses over byte lists (List.length, firstn, ++ are not tail-recursive): a 1 MiB body needs more than the
+# default 8 MiB of stack.  The model driver and the harness are children of this process: give them the hard limit.
+try:
+    _soft, _hard = resource.getrlimit(resource.RLIMIT_STACK)
+    resource.setrlimit(resource.RLIMIT_STACK, (_hard, _hard))
+except (ValueError, OSError):
+    pass
+
 PAIRS = ("proto.pair", "proto.server")
 ALT = b'h3=":8443";ma=2592000'
 HOP = {b"connection", b"keep-alive", b"proxy-connection", b"transfer-encoding", b"upgrade", b"te", b"content-length", b"alt-svc"}
@@ -305,12 +314,89 @@ PKG_MENUS = [
 ]
 
 
-# handlers that read only the first n bytes of the request body (read_to_bytes(n)); /echo reads all of it (up to 1 MiB)
-ECHON = {b"/echo3": 3, b"/echo100": 100}
+# handlers that read only the first n bytes of the request body (read_to_bytes(n)); /echo reads all of it (up to 1 MiB).
+# The two large limits are reached inside the second / third DATA frame of a large body (HTTP/2 frames: 16384 bytes).
+ECHON = {b"/echo3": 3, b"/echo100": 100, b"/echo20k": 20000, b"/echo33k": 33000}
 READS = dict(list(ECHON.items()) + [(b"/echo", 1 << 20)])
 
+# ---- streamed responses (FatResponse::with_future / with_future_and_len) ----
+CHUNKS = [b"first chunk of the streamed body\n", b"", b"second chunk, a little longer than the first one\n", b"third and last chunk\n"]
+BIGCHUNKS = [bytes((i * 7 + k) % 251 for i in range(9000)) for k in range(9)]       # 81000 bytes: more than one HTTP/2 window
 
-def host_cfg(cache, pkg, with_files=True, slow=(), ctlen=True):
+
+def ST(path, body, chunks, ln, headers, status=200, delay=0):
+    return (path, body, tuple(chunks), ln, tuple(headers), status, delay)
+
+
+def _tot(body, chunks):
+    return len(body) + sum(map(len, chunks))
+
+
+STREAMS = [
+    ST(b"/st1", b"", CHUNKS, _tot(b"", CHUNKS), [(b"content-type", b"text/plain")]),
+    # with_future: kvarn is told no length, the handler states it itself
+    ST(b"/st2", b"", CHUNKS, None, [(b"content-type", b"text/plain"), (b"content-length", b"%d" % _tot(b"", CHUNKS))]),
+    # a Response body AND a future: head, body, future, close
+    ST(b"/st3", b"body first, then ", CHUNKS, _tot(b"body first, then ", CHUNKS), [(b"content-type", b"text/plain"), (b"x-h", b"st3")]),
+    ST(b"/st4", b"", BIGCHUNKS, _tot(b"", BIGCHUNKS), [(b"content-type", b"application/octet-stream")]),
+    ST(b"/st5", b"", CHUNKS, _tot(b"", CHUNKS), [(b"content-type", b"text/plain"), (b"keep-alive", b"timeout=5")], delay=4),
+    ST(b"/st0", b"", [], 0, [(b"x-h", b"st0")]),
+    ST(b"/st404", b"", [b"streamed not found page"], 23, [(b"content-type", b"text/plain")], status=404),
+]
+STREAM_PATHS = [t[0] for t in STREAMS]
+SFILE = bytes((i * 7 + 3) % 256 for i in range(100000))
+STEXT = b"hello stream body\n" * 10
+SFILES = [("public/sf/a.bin", SFILE), ("public/sf/t.txt", STEXT), ("public/sf/e.txt", b"")]
+SF_PATHS = [b"/sf/a.bin", b"/sf/t.txt", b"/sf/t.txt", b"/sf/e.txt", b"/sf/missing.txt"]
+
+# ---- connection-specific headers (RFC 9113 8.2.2) a handler may leave on its response: every subset, with and without
+#      `connection`, and `connection` nominating a custom header ----
+HOP_MENU = [(b"keep-alive", b"timeout=5"), (b"proxy-connection", b"keep-alive"), (b"transfer-encoding", b"identity"),
+            (b"upgrade", b"h2c"), (b"te", b"gzip"), (b"te", b"trailers")]
+CONN_VALUES = [None, None, b"keep-alive", b"close", b"x-nominated", b"upgrade"]
+
+
+def hop_page(path, subset, conn, extra=()):
+    hs = [(b"content-type", b"text/plain")] + list(subset) + list(extra)
+    if conn is not None:
+        hs.append((b"connection", conn))
+        if conn == b"x-nominated":
+            hs.append((b"x-nominated", b"v"))
+    return (path, hs)
+
+
+# every single connection-specific header WITHOUT `connection`, all of them at once, and with `connection`
+HOPS_DIRECTED = [hop_page(b"/hs%d" % i, [h], None) for i, h in enumerate(HOP_MENU)] + [
+    hop_page(b"/hs6", HOP_MENU[:5], None), hop_page(b"/hs7", HOP_MENU[:5], b"close"), hop_page(b"/hs8", [], b"x-nominated"),
+    hop_page(b"/hs9", [HOP_MENU[5]], b"keep-alive")]
+
+
+def rand_hops(rng, n=3):
+    out = []
+    for i in range(n):
+        sub = [h for h in HOP_MENU[:4] if rng.random() < 0.4]
+        if rng.random() < 0.5:
+            sub.append(rng.choice(HOP_MENU[4:]))
+        rng.shuffle(sub)
+        out.append(hop_page(b"/hs%d" % i, sub, rng.choice(CONN_VALUES)))
+    return out
+
+
+# ---- large compressible representations (HTTP/2 flow control on the response; the h2 client keeps 65535-byte windows) ----
+def big_text(n):
+    import hashlib
+    out, i = [], 0
+    while sum(map(len, out)) < n:
+        out.append(b"line %06d %s the quick brown fox\n" % (i, hashlib.sha256(b"%d" % i).hexdigest()[:40].encode()))
+        i += 1
+    return b"".join(out)[:n]
+
+
+BIG64 = big_text(64 * 1024)
+BIG1M = big_text(1 << 20)
+
+
+def host_cfg(cache, pkg, with_files=True, slow=(), ctlen=True, hops=HOPS_DIRECTED, streams=True, limit=None, big=0):
     hs = [H(b"/p", TEXT, headers=[(b"content-type", b"text/plain"), (b"x-h", b"p")], spref=2, compress=True),
           H(b"/n", TEXT[:150], headers=[(b"content-type", b"text/plain")], spref=0, compress=True),
           H(b"/q", b"q:", kind=1, headers=[(b"content-type", b"text/plain")], spref=1),
@@ -327,13 +413,28 @@ def host_cfg(cache, pkg, with_files=True, slow=(), ctlen=True):
     hs.append(H(b"/up", b"u" * 70, headers=[(b"content-type", b"text/plain"), (b"upgrade", b"h2c"), (b"te", b"gzip"), (b"proxy-connection", b"close"),
                                              (b"connection", b"close")], spref=2, compress=True))
     hs.append(H(b"/te", b"t" * 10, headers=[(b"te", b"trailers"), (b"x-h", b"te")], spref=2))
+    for i, (path, headers) in enumerate(hops):
+        hs.append(H(path, b"hop page %d " % i * 4, headers=headers, spref=(0, 2)[i % 2], compress=i % 3 == 0))
+    if big >= 1:
+        hs.append(H(b"/big64", BIG64, headers=[(b"content-type", b"text/plain")], spref=2, compress=True))
+    if big >= 2:
+        hs.append(H(b"/big1m", BIG1M, headers=[(b"content-type", b"text/plain")], spref=2, compress=True))
     kvs = [xl(xb("cache"), xbool(cache)), xl(xb("handlers"), xlist(hs)),
            xl(xb("pkg"), xlist([xl(xz(p), xn(k), xb(n), xb(v)) for p, k, n, v in pkg])),
            xl(xb("echo"), xlist([xb(b"/echo")])),
            xl(xb("echon"), xlist([xl(xb(p), xn(n)) for p, n in sorted(ECHON.items())]))]
+    if streams:
+        kvs.append(xl(xb("stream"), xlist([xl(xb(pa), xb(bo), xlist([xb(c) for c in ch]), xlist([xn(ln)] if ln is not None else []),
+                                              xlist([xl(xb(a), xb(b)) for a, b in hd]), xn(st), xn(dl))
+                                           for pa, bo, ch, ln, hd, st, dl in STREAMS])))
+    if limit is not None:
+        kvs.append(xl(xb("limit"), xn(limit)))
     if with_files:
-        kvs.append(xl(xb("files"), xlist([xl(xb("public/f.txt"), xb(TEXT)), xl(xb("public/b.bin"), xb(BIN)),
-                                          xl(xb("public/index.html"), xb(INDEX)), xl(xb("public/e.txt"), xb(b""))])))
+        files = [("public/f.txt", TEXT), ("public/b.bin", BIN), ("public/index.html", INDEX), ("public/e.txt", b"")]
+        if streams:
+            files += SFILES
+            kvs.append(xl(xb("sfiles"), xb(b"/sf/")))
+        kvs.append(xl(xb("files"), xlist([xl(xb(n), xb(b)) for n, b in files])))
     if slow:
         kvs.append(xl(xb("slow"), xlist([xl(xb(p), xb(b), xn(sp)) for p, b, sp in slow])))
     return xlist(kvs)
@@ -372,8 +473,8 @@ def probe(jobs):
         _STATS["probes"] += 1
         o = out.get("p%d" % i)
         v = kv.xparse(o) if o else None
-        if v and v[0] == "L" and len(v[1]) == 2 and v[1][1][0] == "L" and len(v[1][1][1]) == len(reqs) and v[1][0][1]:
-            res.append((v[1][0], v[1][1][1]))
+        if v and v[0] == "L" and len(v[1]) == 3 and v[1][1][0] == "L" and len(v[1][1][1]) == len(reqs) and v[1][0][1]:
+            res.append((v[1][0], v[1][1][1], v[1][2]))
         else:
             _STATS["probe_failures"] += 1
             res.append(None)
@@ -383,20 +484,29 @@ def probe(jobs):
 EMPTY_RESP = xl(xn(11), xn(500), xlist([]), xb(b"probe failed"))
 
 
-def exchanges(reqs, pr):
+def exchanges(reqs, pr, limit=None):
+    """[limit]: the host's limiter lets that many requests pass; the later ones are answered 429 by handle_connection (they
+    never reach layer 4: the probe was run with the first [limit] requests only)"""
     exs = []
     for k, r in enumerate(reqs):
         m, t, hs, b = r
         rg = dict(hs).get(b"range")
+        limited = limit is not None and k >= limit
+        fut = None
         if pr is None:
             l4, sd = EMPTY_RESP, 0
+        elif limited:
+            l4, sd = xl(*pr[2][1][:4]), 0
         else:
             v = pr[1][k][1]
             l4, sd = xl(*v[:4]), v[4][1]
+            if len(v) > 5:
+                fut = v[5]          # (L bytes (L [len])): what the response's future writes, observed in process
         # [want]: the handler that answers calls read_to_bytes(want) — the body-reading handlers answer 200, and are not
         # run when sanitize_request refuses the request (416 / 400: layer 4 answers the error page)
-        want = READS.get(t.split(b"?")[0]) if l4[1][1] == ("N", 200) and sd == 0 else None
-        exs.append(xl(xb(m), xopt(None if rg is None else xb(rg)), xbool(sd != 1), l4, xn(len(b)), xopt(None if want is None else xn(want))))
+        want = READS.get(t.split(b"?")[0]) if l4[1][1] == ("N", 200) and sd == 0 and not limited else None
+        exs.append(xl(xb(m), xopt(None if rg is None else xb(rg)), xbool(sd != 1), l4, xn(len(b)), xopt(None if want is None else xn(want)),
+                      xl(xbool(limited), xopt(fut))))
     e416 = EMPTY_RESP if pr is None else xl(*pr[0][1][:4])
     return e416, xlist(exs)
 
@@ -405,12 +515,13 @@ def exchanges(reqs, pr):
 # requests
 # ----------------------------------------------------------------------------------------------
 AES = [None, b"gzip", b"br", b"identity", b"gzip, br;q=0.5", b"gzip;q=0", b"*;q=0, identity;q=0", b"zstd"]
-PATHS = [b"/ka", b"/up", b"/te", b"/p", b"/p", b"/n", b"/q", b"/q?x=1", b"/q?x=2", b"/m", b"/empty", b"/short", b"/nf", b"/ise", b"/cl", b"/f.txt", b"/f.txt",
+PATHS = [b"/hs0", b"/hs1", b"/hs2", b"/st1", b"/st2", b"/st3", b"/st4", b"/st5", b"/st0", b"/st404", b"/sf/a.bin", b"/sf/t.txt", b"/sf/e.txt",
+         b"/sf/missing.txt", b"/ka", b"/up", b"/te", b"/p", b"/p", b"/n", b"/q", b"/q?x=1", b"/q?x=2", b"/m", b"/empty", b"/short", b"/nf", b"/ise", b"/cl", b"/f.txt", b"/f.txt",
          b"/b.bin", b"/index.html", b"/e.txt", b"/missing", b"/missing.html", b"/./x", b"/p?a=b", b"/dir/../f.txt", b"/f%2Etxt", b"/"]
 
 
 def range_values(rng):
-    n = rng.choice([4, 150, 200, 240, 300, 60])
+    n = rng.choice([4, 150, 200, 240, 300, 60, 180, 103])
     return rng.choice([b"bytes=0-0", b"bytes=0-9", b"bytes=5-5", b"bytes=10-4", b"bytes=%d-%d" % (n - 1, n + 5), b"bytes=%d-%d" % (n, n + 1),
                        b"bytes=%d-%d" % (n + 1, n + 9), b"bytes=2-", b"bytes=-5", b"bytes=0-18446744073709551615", b"bytes=1-2,4-5",
                        b"items=0-1", b"bytes=0-%d" % (n - 1), b"bytes=3-100000"])
@@ -418,7 +529,8 @@ def range_values(rng):
 
 # methods whose content-length kvarn's HTTP/1 reader honours (utils::get_body_length_request)
 BODY_METHODS = (b"POST", b"PUT", b"DELETE", b"PATCH")
-BODY_SIZES = [1, 2, 5, 64, 99, 100, 101, 700, 5000, 5000, 20000, 65535, 65536, 70000, 150000]
+BODY_SIZES = [1, 2, 5, 64, 99, 100, 101, 700, 5000, 5000, 16384, 16385, 19999, 20000, 20001, 32768, 33001, 40000, 40000, 65535, 65536, 70000,
+              150000]
 
 
 LATE = b"x-c20-late-body"     # pseudo header for the harness's HTTP/1.1 client, never sent (see harness/src/c20.rs)
@@ -438,7 +550,11 @@ def late(rng, target, p_after=0.5, p_ms=0.25):
 def rand_body(rng, n):
     if n > 2000:
         seed = bytes(rng.randrange(32, 127) for _ in range(97))
-        return (seed * (n // 97 + 1))[:n]
+        # every 1000 bytes a position stamp: a prefix is recognisable as such
+        out = bytearray((seed * (n // 97 + 1))[:n])
+        for k in range(0, n - 8, 1000):
+            out[k:k + 8] = b"@%07d" % k
+        return bytes(out)
     return bytes(rng.randrange(32, 127) for _ in range(n))
 
 
@@ -464,7 +580,7 @@ def rand_request(rng, focus=None):
         # nothing at all (pages, files, 404 / 405 / 416 / 400 answers, cache hits) - the rest of the history follows on
         # the same connection.  Sizes around the HTTP/2 initial flow-control window (65535) need WINDOW_UPDATEs.
         if rng.random() < 0.5:
-            t = rng.choice([b"/echo", b"/echo", b"/echo3", b"/echo100"])
+            t = rng.choice([b"/echo", b"/echo", b"/echo3", b"/echo100", b"/echo20k", b"/echo20k", b"/echo33k"])
         body = rand_body(rng, rng.choice(BODY_SIZES))
         hs.append((b"content-length", b"%d" % len(body)))
         hs += late(rng, t)
@@ -533,27 +649,74 @@ DIRECTED_HISTORIES = [
     [R(b"POST", b"/echo", [(b"content-length", b"70000")], b"W" * 70000), R(b"POST", b"/echo3", [(b"content-length", b"70000")], b"X" * 70000),
      R(b"PUT", b"/f.txt", [(b"content-length", b"70000")], b"Y" * 70000), R(b"POST", b"/missing", [(b"content-length", b"66000")], b"Z" * 66000),
      R(b"POST", b"/echo", [(b"content-length", b"150000")], bytes(97 + i % 23 for i in range(150000))), R(b"GET", b"/p")],
+    # limits smaller than the body, reached inside the second / third DATA frame of a body that spans several (HTTP/2: 16384-byte
+    # frames): read_to_bytes(20000) of 40000 bytes (frames 16384 + 16384 + 7232), read_to_bytes(33000) of 70000, around the limits
+    [R(b"POST", b"/echo20k", [(b"content-length", b"40000")], bytes(48 + (i * 7 + i // 1000) % 75 for i in range(40000))),
+     R(b"PUT", b"/echo33k", [(b"content-length", b"70000")], bytes(33 + (i * 11 + i // 997) % 90 for i in range(70000))),
+     R(b"POST", b"/echo20k", [(b"content-length", b"20001")], bytes(65 + i % 26 for i in range(20001))),
+     R(b"POST", b"/echo20k", [(b"content-length", b"19999")], bytes(97 + i % 26 for i in range(19999))),
+     R(b"POST", b"/echo100", [(b"content-length", b"40000"), (LATE, b"5")], bytes(48 + (i * 3) % 75 for i in range(40000))), R(b"GET", b"/p")],
+    # streamed responses: a future that writes known chunks (length known to kvarn / stated by the handler / after a Response
+    # body / more than an HTTP/2 window / slowly / nothing at all / an error status), GET and HEAD, ranges (not applied to streams)
+    [R(b"GET", b"/st1"), R(b"HEAD", b"/st1"), R(b"GET", b"/st2"), R(b"GET", b"/st3"), R(b"HEAD", b"/st3"), R(b"GET", b"/st4"),
+     R(b"GET", b"/st5"), R(b"GET", b"/st0"), R(b"GET", b"/st404"), R(b"GET", b"/st1", [(b"range", b"bytes=2-5")]),
+     R(b"POST", b"/st1", [(b"content-length", b"700")], b"s" * 700), R(b"HEAD", b"/st2"), R(b"GET", b"/p")],
+    # extensions::stream_body() on files: whole, HEAD, ranges inside, across and beyond the end, empty file, missing file
+    [R(b"GET", b"/sf/t.txt"), R(b"HEAD", b"/sf/t.txt"), R(b"GET", b"/sf/a.bin"), R(b"GET", b"/sf/a.bin", [(b"range", b"bytes=10-19")]),
+     R(b"GET", b"/sf/t.txt", [(b"range", b"bytes=100-100000")]), R(b"GET", b"/sf/t.txt", [(b"range", b"bytes=500-600")]),
+     R(b"GET", b"/sf/t.txt", [(b"range", b"bytes=179-179")]), R(b"GET", b"/sf/t.txt", [(b"range", b"bytes=180-181")]),
+     R(b"HEAD", b"/sf/a.bin", [(b"range", b"bytes=99990-")]), R(b"GET", b"/sf/e.txt"), R(b"GET", b"/sf/e.txt", [(b"range", b"bytes=0-0")]),
+     R(b"GET", b"/sf/missing.txt"), R(b"GET", b"/sf/t.txt", [(b"accept-encoding", b"gzip")]), R(b"GET", b"/f.txt")],
+    # every connection-specific header on its own WITHOUT a connection header, all at once, with connection, nominated header
+    [R(b"GET", b"/hs%d" % i) for i in range(10)] + [R(b"HEAD", b"/hs0"), R(b"GET", b"/hs6", [(b"accept-encoding", b"gzip")]),
+                                                    R(b"GET", b"/hs3", [(b"range", b"bytes=3-8")]), R(b"GET", b"/p")],
     # empty bodies
     [R(b"GET", b"/empty"), R(b"HEAD", b"/empty"), R(b"GET", b"/e.txt"), R(b"GET", b"/empty", [(b"range", b"bytes=0-0")]), R(b"GET", b"/short", [(b"accept-encoding", b"gzip")])],
 ]
 
 
-def pair_case(cfg, pkg, reqs, pr, secure1, kind):
-    e416, exs = exchanges(reqs, pr)
+def pair_case(cfg, pkg, reqs, pr, secure1, kind, limit=None):
+    e416, exs = exchanges(reqs, pr, limit)
     x = xl(xbool(True), xl(cfg, xlist([x_req(r) for r in reqs])), pkg_order(pkg), xopt(xb(ALT)), e416, exs, xbool(secure1))
     return Case("proto.pair", x, "proto.pair_spec", {"kind": kind})
 
 
-def gen_pairs(rng, n_random, kind="pair"):
+def gen_pairs(rng, n_random, kind="pair", n_limited=2, big=(1,)):
+    # plan = (cache, pkg, history, secure1, kind, host options, limit)
     plans = []
     for i, h in enumerate(DIRECTED_HISTORIES):
         for cache in (True, False):
-            plans.append((cache, PKG_MENUS[(i + cache) % len(PKG_MENUS)], h, (i + cache) % 3 != 0, kind + "-directed"))
+            plans.append((cache, PKG_MENUS[(i + cache) % len(PKG_MENUS)], h, (i + cache) % 3 != 0, kind + "-directed", {}, None))
     for _ in range(n_random):
-        plans.append((rng.random() < 0.7, rng.choice(PKG_MENUS), history(rng), rng.random() < 0.7, kind))
-    jobs = [(host_cfg(c, pkg), h, 0) for c, pkg, h, _, _ in plans]
+        plans.append((rng.random() < 0.7, rng.choice(PKG_MENUS), history(rng), rng.random() < 0.7, kind, {"hops": rand_hops(rng)}, None))
+    # the host's request limiter: the first `limit` requests pass, the rest of the history (and the framing sentinel) is
+    # answered 429 by handle_connection itself, on both protocols
+    for j in range(n_limited):
+        h = history(rng)[:8]
+        while len(h) < 6:
+            h.append(rand_request(rng))
+        limit = max(3, (len(h) + 1 + 2) // 3, rng.randrange(3, len(h)))
+        if j == 0:
+            h = h[:limit] + [R(b"HEAD", b"/p"), R(b"GET", b"/missing"), R(b"POST", b"/echo", [(b"content-length", b"700")], b"l" * 700)] + h[limit:limit + 2]
+        plans.append((j % 2 == 0, PKG_MENUS[j % len(PKG_MENUS)], h, j % 2 == 0, kind + "-limited", {"limit": limit}, limit))
+    # large compressible representations, cached and uncached, every encoding, ranged, HEAD
+    for j, b in enumerate(big):
+        t = b"/big64" if b == 1 else b"/big1m"
+        n = len(BIG64) if b == 1 else len(BIG1M)
+        h = [R(b"GET", t), R(b"GET", t, [(b"accept-encoding", b"gzip")]), R(b"HEAD", t, [(b"accept-encoding", b"gzip")]),
+             R(b"GET", t, [(b"accept-encoding", b"gzip")]), R(b"GET", t, [(b"range", b"bytes=%d-" % (n - 70000))]),
+             R(b"GET", t, [(b"accept-encoding", b"gzip"), (b"range", b"bytes=100-199")])]
+        if b == 1:
+            h += [R(b"GET", t, [(b"accept-encoding", b"br")]), R(b"GET", t, [(b"accept-encoding", b"br"), (b"range", b"bytes=0-65535")])]
+        plans.append((j % 2 == 0, PKG_MENUS[(j + 1) % len(PKG_MENUS)], h, True, kind + "-big", {"big": b, "streams": False, "hops": ()}, None))
+    jobs = [(host_cfg(c, pkg, **opt), h if lim is None else h[:lim], 0) for c, pkg, h, _, _, opt, lim in plans]
     prs = probe(jobs)
-    return [pair_case(job[0], pkg, h, pr, s1, k) for (c, pkg, h, s1, k), job, pr in zip(plans, jobs, prs)]
+    out = []
+    for (c, pkg, h, s1, k, opt, lim), job, pr in zip(plans, jobs, prs):
+        if lim is not None and pr is not None:
+            pr = (pr[0], pr[1] + [None] * (len(h) - lim), pr[2])
+        out.append(pair_case(job[0], pkg, h, pr, s1, k, lim))
+    return out
 
 
 UNREAD_HISTORIES = [
@@ -632,7 +795,10 @@ def gen_mini(rng, n):
 # ----------------------------------------------------------------------------------------------
 # bursts
 # ----------------------------------------------------------------------------------------------
-def burst_plan(rng, n):
+CANCEL = b"x-c20-cancel"     # pseudo header (never sent): the client cancels the stream this many ms after the request
+
+
+def burst_plan(rng, n, p_cancel=0.12):
     cache = rng.random() < 0.75
     nslow = rng.randrange(1, 5)
     slow = [(b"/slow%d" % i, b"slow page %d " % i * 5, rng.choice([0, 2, 2])) for i in range(nslow)]
@@ -647,16 +813,19 @@ def burst_plan(rng, n):
             hs.append((b"x-delay", b"%d" % rng.choice([0, 10, 40, 80, 120, 160, 200, 250])))
             if rng.random() < 0.25:
                 hs.append((b"range", rng.choice([b"bytes=0-4", b"bytes=5-9", b"bytes=900-901", b"bytes=3-1"])))
+            if rng.random() < p_cancel:
+                # the client resets this stream while (or before, or after) its handler sleeps: RST_STREAM(CANCEL)
+                hs.append((CANCEL, b"%d" % rng.choice([0, 1, 5, 30, 90, 150])))
         elif u < 0.8:
-            t = rng.choice([b"/p", b"/f.txt", b"/b.bin", b"/missing", b"/q?s=%d" % s, b"/n", b"/cl"])
+            t = rng.choice([b"/p", b"/f.txt", b"/b.bin", b"/missing", b"/q?s=%d" % s, b"/n", b"/cl", b"/st1", b"/st3", b"/st4", b"/sf/t.txt", b"/hs0", b"/hs4"])
             m = rng.choice([b"GET", b"GET", b"HEAD"])
             if rng.random() < 0.5:
                 hs.append((b"accept-encoding", rng.choice([b"gzip", b"br"])))
             if rng.random() < 0.3:
                 hs.append((b"range", rng.choice([b"bytes=0-9", b"bytes=20-29"])))
         elif u < 0.9:
-            t, m = b"/echo", b"POST"
-            body = b"stream-%d-" % s + rand_body(rng, rng.choice([3, 40, 2000, 2000, 70000]))
+            t, m = rng.choice([b"/echo", b"/echo", b"/echo20k"]), b"POST"
+            body = b"stream-%d-" % s + rand_body(rng, rng.choice([3, 40, 2000, 2000, 40000, 70000]))
             hs.append((b"content-length", b"%d" % len(body)))
         else:
             # a body that is read in part or not at all, among the other streams
@@ -671,7 +840,7 @@ def burst_plan(rng, n):
     return cache, slow, reqs
 
 
-def burst_cases(cfg, pkg, cache, slow, reqs, pr, kind, with_h1):
+def burst_cases(cfg, pkg, cache, slow, reqs, pr, kind, with_h1, two=False):
     e416, exs = exchanges(reqs, pr)
     spref = dict((p, sp) for p, _, sp in slow)
     strs, delays = [], []
@@ -684,15 +853,24 @@ def burst_cases(cfg, pkg, cache, slow, reqs, pr, kind, with_h1):
         elif path == b"/q":
             cacheable, cls = cache, t
         else:
-            cacheable, cls = cache and path not in (b"/n", b"/echo") and path not in ECHON, path
+            cacheable, cls = (cache and path not in (b"/n", b"/echo") and path not in ECHON and path not in STREAM_PATHS
+                              and not path.startswith(b"/sf/") and path not in (b"/hs0", b"/hs4")), path
         cacheable = cacheable and m in (b"GET", b"HEAD")
-        strs.append(xl(xn(s + 1), xb(cls + b"|" + d.get(b"accept-encoding", b"")), xbool(cacheable)))
+        cancel = d.get(CANCEL)
+        strs.append(xl(xn(s + 1), xb(cls + b"|" + d.get(b"accept-encoding", b"")), xbool(cacheable), xopt(None if cancel is None else xn(int(cancel)))))
         delays.append(int(d.get(b"x-delay", b"0")))
     n = len(reqs)
     sched = [s + 1 for s in range(n)] + [s + 1 for s in sorted(range(n), key=lambda s: (delays[s], s))]
-    x = xl(xbool(True), xl(cfg, xlist([x_req(r) for r in reqs])), pkg_order(pkg), xopt(xb(ALT)), e416, exs, xlist(strs), xlist([xn(s) for s in sched]))
-    meta = {"kind": kind, "streams": n, "orders": len(set(delays))}
-    cases = [Case("proto.burst", x, "proto.burst_spec", dict(meta)), Case("proto.alone", x, "proto.burst_spec", dict(meta, kind=kind + "-alone"))]
+    # the pseudo header is not part of the request
+    wire_reqs = [R(m, t, tuple(h for h in hs if h[0] != CANCEL), b) for m, t, hs, b in reqs]
+    x = xl(xbool(True), xl(cfg, xlist([x_req(r) for r in wire_reqs])), pkg_order(pkg), xopt(xb(ALT)), e416, exs, xlist(strs), xlist([xn(s) for s in sched]))
+    meta = {"kind": kind, "streams": n, "orders": len(set(delays)), "cancelled": sum(1 for r in reqs if dict(r[2]).get(CANCEL) is not None)}
+    cases = [Case("proto.burst", x, "proto.burst_spec", dict(meta))]
+    if n <= 40:
+        cases.append(Case("proto.alone", x, "proto.burst_spec", dict(meta, kind=kind + "-alone")))
+    if two:
+        # the same burst spread over TWO HTTP/2 connections to the same host, at once
+        cases.append(Case("proto.burst2", x, "proto.burst_spec", dict(meta, kind=kind + "-2conn")))
     if with_h1:
         cases += [Case("proto.burst1", x, "proto.burst1_spec", dict(meta, kind=kind + "-h1")),
                   Case("proto.alone1", x, "proto.burst1_spec", dict(meta, kind=kind + "-h1-alone"))]
@@ -704,27 +882,79 @@ def gen_bursts(rng, sizes, kind="burst"):
     for i, n in enumerate(sizes):
         cache, slow, reqs = burst_plan(rng, n)
         pkg = PKG_MENUS[i % len(PKG_MENUS)]
-        plans.append((host_cfg(cache, pkg, slow=slow), pkg, cache, slow, reqs, i % 3 == 0))
+        plans.append((host_cfg(cache, pkg, slow=slow), pkg, cache, slow, reqs, i % 3 == 0 and n <= 40, i % 3 == 1))
     # alone: every request on its own fresh host, no delay
-    jobs = [(cfg, [R(m, t, tuple((a, b"0" if a == b"x-delay" else v) for a, v in hs), b) for m, t, hs, b in reqs], 1)
-            for cfg, _, _, _, reqs, _ in plans]
+    jobs = [(cfg, [R(m, t, tuple((a, b"0" if a == b"x-delay" else v) for a, v in hs if a != CANCEL), b) for m, t, hs, b in reqs], 1)
+            for cfg, _, _, _, reqs, _, _ in plans]
     prs = probe(jobs)
     cases = []
-    for (cfg, pkg, cache, slow, reqs, h1), pr in zip(plans, prs):
-        cases += burst_cases(cfg, pkg, cache, slow, reqs, pr, kind, h1)
+    for (cfg, pkg, cache, slow, reqs, h1, two), pr in zip(plans, prs):
+        cases += burst_cases(cfg, pkg, cache, slow, reqs, pr, kind, h1, two)
     return cases
+
+
+# ----------------------------------------------------------------------------------------------
+# which bytes read_to_bytes returns (proto.body); extensions::stream_body on files (proto.sbody)
+# ----------------------------------------------------------------------------------------------
+def body_case(body, frames, early, limits, kind):
+    x = xl(xb(body), xlist([xn(f) for f in frames]), xn(early), xlist([xn(l) for l in limits]))
+    return Case("proto.body", x, "proto.body_spec", {"kind": kind})
+
+
+# the known class h2-body-read-again: read_to_bytes(20000) then read_to_bytes(1000000) of 40000 bytes in frames 16384+16384+7232
+KNOWN_SECOND_READ = (bytes(48 + (i * 7 + i // 1000) % 75 for i in range(40000)), [16384, 16384], 0, [20000, 1000000])
+
+
+def gen_bodies(rng, n):
+    cases = [body_case(*KNOWN_SECOND_READ, "known-second-read"),
+             # one limit: the seeded pattern (limit reached in the second frame), limit = body, limit 1, frames of 1 byte
+             body_case(KNOWN_SECOND_READ[0], [16384, 16384], 100, [20000], "body-directed"),
+             body_case(b"0123456789" * 7, [1, 1, 1, 0, 30], 3, [33], "body-directed"),
+             body_case(rand_body(rng, 70000), [16384] * 4, 70000, [33000], "body-directed"),
+             # a second call after a call that did NOT hit its limit returns nothing on both protocols
+             body_case(b"abcdefghij" * 300, [1000, 1000], 10, [5000, 100], "body-directed")]
+    for _ in range(n):
+        size = rng.choice([1, 7, 300, 5000, 16384, 16385, 30000, 40000, 70000, 150000])
+        body = rand_body(rng, size)
+        frames, left = [], size
+        while left > 0 and len(frames) < 24 and rng.random() < 0.9:
+            f = rng.choice([1, 10, 1000, 5000, 16384, 16384, 16384, rng.randrange(1, 16385)])
+            frames.append(min(f, 16384))
+            left -= frames[-1]
+        if left > 16384:
+            frames += [16384] * (left // 16384)
+        limit = rng.choice([1, 3, size - 1, size, size + 1, size // 2, 16384, 16385, 20000, 33000, 1 << 20, rng.randrange(1, size + 2)])
+        cases.append(body_case(body, frames, rng.choice([0, 0, 1, 100, size // 3, size, size + 5]), [max(1, limit)], "body"))
+    return cases
+
+
+def gen_sbodies(rng, n):
+    plans = [(STEXT, None), (STEXT, (100, 100001)), (STEXT, (500, 601)), (STEXT, (179, 180)), (STEXT, (180, 182)), (b"", None), (b"", (0, 1)),
+             (SFILE, (99990, 200000)), (SFILE, (65535, 65537))]
+    for _ in range(n):
+        size = rng.choice([0, 1, 17, 180, 70000])
+        f = bytes(rng.randrange(256) for _ in range(min(size, 300))) * (size // 300 + 1)
+        f = f[:size]
+        a = rng.choice([0, 1, size - 1, size, size + 1, rng.randrange(0, size + 3)])
+        a = max(0, a)
+        plans.append((f, rng.choice([None, (a, a + rng.choice([1, 2, 10, size + 1, 100000]))])))
+    return [Case("proto.sbody", xl(xb(f), xopt(None if r is None else xl(xn(r[0]), xn(r[1])))), None, {"kind": "stream_body"}) for f, r in plans]
 
 
 def generate(rng, tier):
     if tier == "thorough":
-        cases = gen_pairs(rng, 1600) + gen_servers(rng, 40) + gen_mini(rng, 100) + gen_answered(rng, 150) + gen_bursts(rng, [2, 3, 4, 6, 8, 12, 16, 24, 32] * 16 + [32] * 6)
+        cases = (gen_pairs(rng, 1500, n_limited=40, big=(1, 2, 1, 2)) + gen_servers(rng, 40) + gen_mini(rng, 100) + gen_answered(rng, 150)
+                 + gen_bodies(rng, 300) + gen_sbodies(rng, 150)
+                 + gen_bursts(rng, [2, 3, 4, 6, 8, 12, 16, 24, 32] * 14 + [32] * 6 + [64, 100] * 6))
     else:
-        cases = gen_pairs(rng, 50) + gen_servers(rng, 6) + gen_mini(rng, 16) + gen_answered(rng, 6) + gen_bursts(rng, [2, 3, 5, 9, 16, 24, 32])
+        cases = (gen_pairs(rng, 40, n_limited=2, big=(1, 2)) + gen_servers(rng, 6) + gen_mini(rng, 16) + gen_answered(rng, 6)
+                 + gen_bodies(rng, 14) + gen_sbodies(rng, 8) + gen_bursts(rng, [2, 3, 5, 9, 16, 32, 100]))
     return cases
 
 
 def directed(rng, mismatches):
-    return gen_pairs(rng, 120, "directed") + [c for c in gen_bursts(rng, [4, 8, 16, 32, 32, 12], "directed-burst") if c.spec]
+    return (gen_pairs(rng, 100, "directed", n_limited=6, big=()) + gen_bodies(rng, 60)
+            + [c for c in gen_bursts(rng, [4, 8, 16, 32, 32, 12], "directed-burst") if c.spec])
 
 
 # ----------------------------------------------------------------------------------------------
@@ -754,6 +984,8 @@ def wire(w):
         inner = w[1][1]
         if inner[1][0] == ("N", 3):
             return "refused"
+        if inner[1][0] == ("N", 4):
+            return "broken"
         v, st, hs, b = inner[1][1][1]
         return {"version": v[1], "status": st[1], "headers": sorted((h[1][0][1], h[1][1][1]) for h in hs[1]), "body": b[1]}
     except Exception:
@@ -789,7 +1021,7 @@ def spec_ok(c, i, s):
             want = spec_wire(sp)
             for w in e[1]:
                 got = wire(w)
-                if got == "refused":
+                if got in ("refused", "broken"):
                     return False
                 if got is None or norm(got) != want:
                     return False
@@ -853,10 +1085,25 @@ def undeclared_body(c):
     return any(r[1][3][1] and r[1][0][1] not in BODY_METHODS for r in c.x[1][1][1][1][1])
 
 
+def second_read(c, i):
+    """proto.body with two limits: both protocols return the first [l1] bytes to the first call, HTTP/1.1 nothing to the second
+    call and HTTP/2 something (the frames after the one in which the first call hit its limit)"""
+    try:
+        body, limits = c.x[1][0][1], [l[1] for l in c.x[1][3][1]]
+        v = kv.xparse(i)
+        h1, h2 = [b[1] for b in v[1][0][1]], [b[1] for b in v[1][1][1]]
+        return (len(limits) == 2 and limits[0] < len(body) and h1 == [body[:limits[0]], b""] and len(h2) == 2 and h2[0] == h1[0]
+                and h2[1] != b"" and body.endswith(h2[1]))
+    except Exception:
+        return False
+
+
 def classify(c, i):
     # (the class h1-unread-request-body was repaired by dfe4d54: fixed: line in known-findings.txt)
     if c.comp == "proto.answered" and i == "(L (N 0) (N 1))" and undeclared_body(c):
         return "h1-undeclared-request-body"
+    if c.comp == "proto.body" and second_read(c, i):
+        return "h2-body-read-again"
     return None
 
 
@@ -869,11 +1116,16 @@ def signature(c, m):
 
 def extra_coverage(cases, impl, model, spec):
     pairs = [c for c in cases if c.comp in PAIRS]
-    bursts = [c for c in cases if c.comp in ("proto.burst", "proto.burst1")]
+    bursts = [c for c in cases if c.comp in ("proto.burst", "proto.burst1", "proto.burst2")]
     return {"histories_through_both_protocols": len(pairs),
             "requests_through_both_protocols": sum(len(c.x[1][5][1]) for c in pairs),
             "histories_through_complete_servers_(RunConfig::execute)": len([c for c in cases if c.comp == "proto.server"]),
             "bursts": len(bursts),
             "concurrent_streams": sum(c.meta.get("streams", 0) for c in bursts),
             "max_streams_in_one_burst": max([c.meta.get("streams", 0) for c in bursts] or [0]),
+            "cancelled_streams": sum(c.meta.get("cancelled", 0) for c in bursts),
+            "bursts_over_two_connections": len([c for c in cases if c.comp == "proto.burst2"]),
+            "streamed_exchanges_through_both_protocols": sum(1 for c in pairs for e in c.x[1][5][1] if len(e[1]) > 6 and e[1][6][1][1][1]),
+            "limiter_answered_exchanges": sum(1 for c in pairs for e in c.x[1][5][1] if len(e[1]) > 6 and e[1][6][1][0] == ("N", 1)),
+            "request_body_reads_(proto.body)": len([c for c in cases if c.comp == "proto.body"]),
             "layer4_probes": _STATS["probes"], "layer4_probe_failures": _STATS["probe_failures"]}
